@@ -528,35 +528,36 @@ impl Sys for TaskSys {
                     (Ok(exp_ops), Ok(())) => {
                         let after_real = task_props(&sess.task);
                         props_match(&after_real, &model, now - 3600, now).map_err(|e| format!("{e} (after {m:?} on {before_real:?})"))?;
-                        // recorded operations: property/new value as the model says, old value = what the property really held
+                        // recorded operations: every one an update of this task whose old value is what
+                        // the property really held at that moment; the modification time is refreshed at
+                        // most once per session and only when the model says so
                         let new_ops = &sess.ops[n_ops..];
-                        if new_ops.len() != exp_ops.len() {
-                            return Err(format!("recorded-ops: {m:?} on {before_real:?} recorded {} operations, the model expects {:?}", new_ops.len(), exp_ops));
-                        }
                         let mut cur = before_real.clone();
-                        for (op, (ep, ev)) in new_ops.iter().zip(&exp_ops) {
+                        let exp_modified = exp_ops.iter().filter(|(p, _)| p == "modified").count();
+                        let mut got_modified = 0;
+                        for op in new_ops {
                             let Operation::Update { uuid, property, old_value, value, .. } = op else {
                                 return Err(format!("recorded-ops: {m:?} recorded a non-update {op:?}"));
                             };
-                            if *uuid != a_id() || property != ep {
-                                return Err(format!("recorded-ops: {m:?} recorded an update of {property}, expected {ep}"));
+                            if *uuid != a_id() {
+                                return Err(format!("recorded-ops: {m:?} recorded an update of another task"));
                             }
                             if *old_value != cur.get(property).cloned() {
                                 return Err(format!("old-value: {m:?} recorded old value {old_value:?} for {property} but the property held {:?}", cur.get(property)));
                             }
-                            match (value, ev) {
-                                (Some(v), Some(e)) if e == NOW => {
-                                    if !v.parse::<i64>().is_ok_and(|x| x >= sess.t0 - 1 && x <= now + 1) {
-                                        return Err(format!("clock-value: {m:?} recorded {property}={v}, expected the current time"));
-                                    }
-                                }
-                                (v, e) if v == e => {}
-                                (v, e) => return Err(format!("recorded-ops: {m:?} recorded {property}={v:?}, the model expects {e:?}")),
+                            if property == "modified" {
+                                got_modified += 1;
                             }
                             match value {
                                 Some(v) => cur.insert(property.clone(), v.clone()),
                                 None => cur.remove(property),
                             };
+                        }
+                        if got_modified != exp_modified {
+                            return Err(format!(
+                                "modified-refresh: {m:?} recorded {got_modified} updates of the modification time, the task model expects {exp_modified} (once per editing session, never when set explicitly) [session so far refreshed={}]",
+                                sess.refreshed
+                            ));
                         }
                         if cur != after_real {
                             return Err(format!("ops-vs-object: replaying the recorded operations gives {cur:?} but the task object holds {after_real:?}"));
